@@ -1,7 +1,7 @@
 """C02: exactly-once delivery - each admitted call is one whole Write, for any arguments."""
 import corelib
 
-TOKENS = ["key", "ekey", "str", "int", "nil", "err", "any", "attr", "attrs", "attrslice", "group", "egroup", "ngroup"]
+TOKENS = ["key", "ekey", "str", "int", "nil", "err", "any", "attr", "attrs", "attrslice", "group", "egroup", "ngroup", "bigattrs"]
 EPS = ["verb", "ctx", "LogAttrs", "Logit", "Println", "pkg", "pkg.ctx", "pkg.Println"]
 MSG = ["plain", "empty", "blank", "none", "multi", "trailnl", "bytes"]
 OBS = []
